@@ -121,6 +121,22 @@ fn homogeneous<T: Tier>(rep: &mut Report) {
             let sv: [T::M; 3] = std::array::from_fn(|j| msc[j] * mvc[j]);
             eq_v::<T, 3>(ctx, &key("Matrix4::from_nonuniform_scale/point"), p3(n4.transform_point(p)), sp);
             eq_v::<T, 3>(ctx, &key("Matrix4::from_nonuniform_scale/vector"), v3(n4.transform_vector(v)), sv);
+            // the same constructors judged on full homogeneous coordinates: (p,1) -> (p',1), (v,0) -> (v',0); the points
+            // and directions span the space, so this fixes every element (transform_point drops w and cannot see row 3)
+            {
+                let one = T::M::one();
+                let zero = T::M::zero();
+                let hp = mk_v4([pt[0], pt[1], pt[2], T::one()]);
+                let hv = mk_v4([vc[0], vc[1], vc[2], T::zero()]);
+                for (nm, m, ep, ev) in [
+                    ("Matrix4::from_translation", t4, model::vadd(mpt, mtr), mvc),
+                    ("Matrix4::from_scale", s4, model::vscale(mpt, msc[0]), model::vscale(mvc, msc[0])),
+                    ("Matrix4::from_nonuniform_scale", n4, sp, sv),
+                ] {
+                    eq_v::<T, 4>(ctx, &key(&format!("{nm}/homogeneous-point")), v4(m * hp), model::extend::<_, 3, 4>(ep, one));
+                    eq_v::<T, 4>(ctx, &key(&format!("{nm}/homogeneous-vector")), v4(m * hv), model::extend::<_, 3, 4>(ev, zero));
+                }
+            }
             // general Matrix4 = embedded block then translation: column-vector convention
             let g4 = t4 * Matrix4::from(a3);
             let lin_p = model::mvec(m3e, mpt);
@@ -152,6 +168,20 @@ fn homogeneous<T: Tier>(rep: &mut Report) {
             let sw: [T::M; 2] = [msc[0] * mw[0], msc[1] * mw[1]];
             eq_v::<T, 2>(ctx, &key("Matrix3::from_nonuniform_scale/point"), p2(Transform::<Point2<T>>::transform_point(&n3, q)), sq);
             eq_v::<T, 2>(ctx, &key("Matrix3::from_nonuniform_scale/vector"), v2(Transform::<Point2<T>>::transform_vector(&n3, w)), sw);
+            {
+                let one = T::M::one();
+                let zero = T::M::zero();
+                let hq = mk_v3([pt[0], pt[1], T::one()]);
+                let hw = mk_v3([vc[0], vc[1], T::zero()]);
+                for (nm, m, ep, ev) in [
+                    ("Matrix3::from_translation", t3, model::vadd(mq, mtr2), mw),
+                    ("Matrix3::from_scale", s3, model::vscale(mq, msc[0]), model::vscale(mw, msc[0])),
+                    ("Matrix3::from_nonuniform_scale", n3, sq, sw),
+                ] {
+                    eq_v::<T, 3>(ctx, &key(&format!("{nm}/homogeneous-point")), v3(m * hq), model::extend::<_, 2, 3>(ep, one));
+                    eq_v::<T, 3>(ctx, &key(&format!("{nm}/homogeneous-vector")), v3(m * hw), model::extend::<_, 2, 3>(ev, zero));
+                }
+            }
             let g3 = t3 * Matrix3::from(a2);
             let lq = model::mvec(m2e, mq);
             let lw = model::mvec(m2e, mw);
